@@ -106,7 +106,7 @@ pub fn run(thorough: bool) -> Vec<Part> {
     let t = par_enum(
         blocks,
         workers(),
-        300,
+        90,
         |blk, t| {
             let head = [SYMS[(blk % K) as usize], SYMS[(blk / K % K) as usize], SYMS[(blk / K / K % K) as usize]];
             // strings shorter than 3 symbols are covered once, by block 0
@@ -246,6 +246,28 @@ pub fn run(thorough: bool) -> Vec<Part> {
         |i| format!("large input #{}", i),
     );
     t2.record(&mut part, "large-inputs");
+    // the connection under EVERY read schedule of short pipelined streams with bodies (real
+    // buffer: one read can complete a request and leave the next one in mid-body)
+    for (name, stream) in [
+        ("get + put(6) + get", &b"GET /a HTTP/1.1\r\n\r\nPUT /b HTTP/1.1\r\nContent-Length: 6\r\n\r\nabcdefGET /c HTTP/1.0\r\n\r\n"[..]),
+        ("put(3) + put(2) + garbage", &b"PUT /b HTTP/1.1\r\nContent-Length: 3\r\n\r\nabcPATCH /c HTTP/1.1\r\nExpect: 100-continue\r\nContent-Length: 2\r\n\r\nxyBAD\r\n\r\n"[..]),
+    ] {
+        let mut cfg = Cfg::base("C03", name, vec![], 51200);
+        cfg.stream = Some(stream.to_vec());
+        cfg.robust_only = true;
+        cfg.empty_reads = true;
+        cfg.eof = false;
+        let st = bfs(&cfg, &Limits { max_states: 2_000_000, max_secs: 120.0, ..Default::default() }, workers());
+        part.add("stream_graph_states", st.states);
+        part.add("stream_graph_transitions", st.transitions);
+        part.add("evaluations", st.transitions);
+        for (v, _) in &st.violations {
+            part.violations.push(v.clone());
+        }
+        for e in &st.machinery_errors {
+            part.machinery_errors.push(e.clone());
+        }
+    }
     // write side: at most one write per try_write, whatever the stream answers (incl. EINTR)
     {
         let cfg = crate::connw::WCfg { label: "write path: one write per try_write under every stream answer".into(), bodies: vec![5], max_enqueues: 2, all_lengths: false };
